@@ -128,7 +128,16 @@ def hazards(src, host, kind, start, end, rname, opts, starts):
                 twins = [n for n in ast.walk(host) if isinstance(n, ast.expr) and hasattr(n, "lineno") and n is not region_nodes[0] and ast.dump(n) == want_dump]
             if twins:
                 first = min([start] + [off(n) for n in twins])
-                later_store = any(isinstance(n, ast.Name) and isinstance(n.ctx, ast.Store) and n.id in names and off(n, True) >= first for n in ast.walk(host))
+                # a target is bound after its statement's value was evaluated: it counts from the END of that statement
+                bound_at = {}
+                for st_ in ast.walk(host):
+                    if isinstance(st_, (ast.Assign, ast.AugAssign, ast.AnnAssign, ast.For)):
+                        tg_ = st_.targets if isinstance(st_, ast.Assign) else [st_.target]
+                        for t_ in tg_:
+                            for x_ in ast.walk(t_):
+                                if isinstance(x_, ast.Name) and isinstance(x_.ctx, ast.Store):
+                                    bound_at[id(x_)] = off(st_, True) if not isinstance(st_, ast.For) else off(st_.iter, True)
+                later_store = any(isinstance(n, ast.Name) and isinstance(n.ctx, ast.Store) and n.id in names and bound_at.get(id(n), off(n, True)) >= first for n in ast.walk(host))
                 in_loop = any(isinstance(lp, (ast.For, ast.While)) and any(off(lp) <= off(t_) and off(t_, True) <= off(lp, True) for t_ in twins + region_nodes) for lp in ast.walk(host))
                 if later_store or (in_loop and names & written_in_host) or ("self.t" in text and attr_written) or ("G" in names and g_written):
                     hz.add("similar_ignores_intervening_writes")
